@@ -97,10 +97,11 @@ RELY = [("context-restored", "CTX[me] == old(CTX[me])"),
          "and typed(curact(), 'Action')._successFields == old(typed(curact(), 'Action')._successFields) "
          "and typed(curact(), 'Action')._identification == old(typed(curact(), 'Action')._identification))")]
 
-contract("iface::UserCode.__call__", returns="Any",
+contract("iface::UserCode.__call__", returns="Any", keep=["locked_flag"],
          notes="application code run inside an action (f of Action.run, a wrapped function): may do anything, including "
                "calling the Eliot API, but like every Eliot construct it leaves the current action as it found it and never "
-               "touches context tokens it does not own, and leaves the current action consistent and unfinished; may raise any BaseException",
+               "touches context tokens it does not own, and leaves the current action consistent and unfinished; it does not acquire or "
+               "release Eliot's private locks (the `_lock` of a logger, the one-shot lock inside a preserve_context closure); may raise any BaseException",
          modifies=["*"],
          ensures=RELY + [("recorded", "last(CALLS) == Ev('ret', self, args, kwargs, result, old(CTX[me]))")],
          raises=[{"cls": "BaseException", "ensures": RELY + [("recorded", "last(CALLS) == Ev('exc', self, args, kwargs, exc, old(CTX[me]))")]}])
